@@ -405,7 +405,13 @@ def run(ctx: Ctx) -> None:
     for k in kernels:
         key = k.qualname + "@" + k.module.name
         has = key in covered or k.qualname in inl_names
-        trivial = not any(isinstance(n, ast.Subscript)
+        ann = {id(x) for n in ast.walk(k.node)
+               for a_ in ([n.annotation] if isinstance(
+                   n, (ast.AnnAssign, ast.arg)) and n.annotation is not None
+                   else [k.node.returns] if n is k.node and k.node.returns
+                   is not None else [])
+               for x in ast.walk(a_)}
+        trivial = not any(isinstance(n, ast.Subscript) and id(n) not in ann
                           for n in ast.walk(k.node))
         ctx.ob("D13.2", k, k.node, has or trivial,
                "kernel has a contract" if key in covered else
